@@ -114,9 +114,9 @@ func copyTree(src, dst string) error {
 }
 
 // runMutant applies m to a scratch copy of repo, runs its rules in a child process and removes the copy.
-func runMutant(repo string, m *mutant) mutantResult {
+func runMutant(repo string, m *mutant) (res mutantResult) {
 	start := time.Now()
-	res := mutantResult{Name: m.name, Note: m.note, Rules: m.rules}
+	res = mutantResult{Name: m.name, Note: m.note, Rules: m.rules}
 	defer func() { res.WallS = time.Since(start).Seconds() }()
 	// anchors present?
 	for _, h := range m.hunks {
